@@ -178,7 +178,8 @@ def gen_plan(rng, tier="quick"):
                 steps.append({"op": "sibling", "file": rng.choice(sw), "kind": rng.choice(["garbage", "plausible"])})
     if files and steps[-1]["op"] != "read":
         steps.append({"op": "read", "file": rng.choice(sorted(files)), "short_reads": False})
-    return {"engine": NAME, "steps": steps, "bufsize": rng.choice([32, 64, 256, 1024, 8192])}
+    return {"engine": NAME, "steps": steps, "bufsize": rng.choice([32, 64, 256, 1024, 8192]),
+            "tz": rng.choice([None, None, None, "Pacific/Auckland", "America/Los_Angeles", "Asia/Kolkata"])}
 
 
 def shape(plan):
@@ -542,6 +543,12 @@ def execute(arg):
     if arg.get("plan_retries"):
         sim.count("plan_generation_retries", arg["plan_retries"])
     install_seams(arg["run_seed"])      # includes the clock seam (simkit/clock.py)
+    if plan.get("tz"):
+        # the machine's time zone is configuration too: file times are UTC whatever it is
+        import time as _time
+
+        os.environ["TZ"] = plan["tz"]
+        _time.tzset()
     root = os.path.join(lanes.scratch_root(), "fs")
     fs = simfs.SimFS(root, sim, bufsize=plan.get("bufsize", 8192))
     fs.install()
